@@ -201,6 +201,19 @@ Theorem C12_id_counters_rmw_under_mutex : forallb path_ok id_site_paths = true.
 Proof. exact id_paths_ok. Qed.
 Print Assumptions C12_id_counters_rmw_under_mutex.
 
+(* Check-then-act in one exclusive section (generated table, re-opened by every run): whenever one of the
+   counters is written, that counter (for the per-version maximum: it or the repo-wide maximum) has been read
+   since the exclusive lock was taken.  A value compared under a read lock that was released before the write
+   lock was taken (a stale snapshot) does not count: between the two another request may have advanced the
+   counter, and the write would lower it. *)
+Theorem C12_counter_writes_rechecked_under_lock : forallb path_rechecked id_site_paths = true.
+Proof. exact id_paths_rechecked. Qed.
+Print Assumptions C12_counter_writes_rechecked_under_lock.
+
+(* non-vacuity / discrimination: a path that is well locked (path_ok) but writes from a snapshot fails it *)
+Example C12_stale_snapshot_fails : path_ok stale_snapshot_path = true /\ path_rechecked stale_snapshot_path = false.
+Proof. exact stale_snapshot_fails. Qed.
+
 (* the nine sites are in the table, each with a path that modifies its counter *)
 Theorem C12_id_sites_extracted : sites_present id_site_paths = true.
 Proof. exact id_sites_present. Qed.
